@@ -313,7 +313,7 @@ def e2e_case(draw):
             aggregates_mode="top",
             Bs=(10,),
             lambdas=(None,),
-            tf_limits=((0.5, 2.0), (0.5, 2.0), (0.5, 2.0), (0.8, 1.25)),
+            tf_limits=((0.5, 2.0), (0.5, 2.0), (0.5, 2.0), (0.8, 1.25), (0, 2.0), (0, 3.0)),
             allow_features=False,
             allow_fe=False,
             special_counties=False,
